@@ -1,0 +1,11 @@
+//go:build verif
+// +build verif
+
+package exec
+
+import "github.com/grailbio/bigslice/internal/simhook"
+
+// Verification accessors (build tag verif). They add no behaviour.
+
+// VerifSetYield installs the simulator's yield hook.
+func VerifSetYield(f func(point, key string)) { simhook.Hook = f }
